@@ -23,7 +23,7 @@ import sys, os, json, time as _time, logging, struct
 logging.disable(logging.CRITICAL)
 
 from scapy.utils import RawPcapReader, rdpcap
-from scapy.layers.bluetooth4LE import BTLE, BTLE_RF
+from scapy.layers.bluetooth4LE import BTLE, BTLE_RF, BTLE_ADV, BTLE_DATA
 from scapy.layers.dot15d4 import Dot15d4, Dot15d4FCS
 from whad.hub import ProtocolHub
 from whad.hub.ble import BLEMetadata
@@ -50,11 +50,17 @@ SNIFFERS = {"ble": whad.ble.Sniffer, "dot15d4": whad.dot15d4.Sniffer, "esb": wha
 def mk_packet(domain, frame, meta):
     g = meta.get
     if domain == "ble":
-        p = BTLE(frame)
+        shape = g("shape")
+        if shape == "adv":                  # what BleAdvPduReceived.to_packet hands over: no BTLE layer
+            p = BTLE_ADV(frame[4:-3])
+        elif shape == "data":               # what BlePduReceived.to_packet hands over
+            p = BTLE_DATA(frame[4:-3])
+        else:
+            p = BTLE(frame)
         p.metadata = BLEMetadata(channel=g("channel"), rssi=g("rssi"), direction=g("direction"),
                                  is_crc_valid=g("valid"), timestamp=g("ts"))
     elif domain == "dot15d4":
-        p = Dot15d4FCS(frame)
+        p = Dot15d4(frame) if g("shape") == "nofcs" else Dot15d4FCS(frame)
         p.metadata = Dot15d4Metadata(channel=g("channel"), rssi=g("rssi"), is_fcs_valid=g("valid"),
                                      lqi=g("lqi"), timestamp=g("ts"))
     elif domain in ("esb", "unifying"):
@@ -349,7 +355,9 @@ def _read_case(case, fn, n_expected):
     while dev.opened and not THREAD_EXC and _time.time() - t0 < 20:
         _time.sleep(0.002)
     t1 = _time.time()
-    while len(got) < n_expected and not THREAD_EXC and _time.time() - t1 < 20.0:
+    # the file has been read to its end: wait for the messages the device DID emit to reach the
+    # connector's callback (a record the device swallowed will never arrive)
+    while len(got) < (len(raws) if not dev.opened else n_expected) and not THREAD_EXC and _time.time() - t1 < 20.0:
         _time.sleep(0.002)
     for fn_ in (s.stop, s.close, dev.close):
         try:
@@ -364,7 +372,12 @@ def _read_case(case, fn, n_expected):
 def frame_attrs(domain, fr, meta):
     try:
         p = mk_packet(domain, fr, meta)
-        stable = bytes(p) == fr
+        if domain == "ble" and meta.get("shape") in ("adv", "data"):
+            # the frame the capture must hold: default access address + PDU + the CRC scapy computes
+            aa = struct.unpack("<I", fr[:4])[0]
+            stable = aa == (0x8e89bed6 if meta["shape"] == "adv" else 0x11223344) and bytes(BTLE(access_addr=aa) / p) == fr
+        else:
+            stable = bytes(p) == fr
         if stable and domain in ("esb", "unifying"):
             # Domain.format() sets preamble=0xAA, which makes scapy rebuild the frame from its fields
             q = mk_packet(domain, fr, meta)
